@@ -165,7 +165,14 @@ impl Peer for Client {
                     }
                 };
                 drop(board);
-                krpc::announce_peer(&t, &id, &hash_n(h), &token, port)
+                if let Some(p) = parts[2].strip_prefix("implied+") {
+                    // what most clients send: implied_port = 1 together with a real port number
+                    krpc::announce_peer_raw(&t, &id, &hash_n(h), &token, p.parse().unwrap_or(1), Some(1))
+                } else if let Some(p) = parts[2].strip_prefix("notimplied+") {
+                    krpc::announce_peer_raw(&t, &id, &hash_n(h), &token, p.parse().unwrap_or(1), Some(0))
+                } else {
+                    krpc::announce_peer(&t, &id, &hash_n(h), &token, port)
+                }
             }
             "raw" => unhex(parts[1]),
             _ => return,
